@@ -367,7 +367,7 @@ def _gen_scenario(rng, tier):
     return {'cap': cap, 'future_first': rng.random() < 0.7, 'transfers': transfers, 'end': end,
             'crt_threads': rng.choice([1, 2]), 'raise_after': rng.randrange(1, n + 1),
             'ki_at': rng.randrange(0, 3), 'sched_seed': rng.randrange(1 << 30),
-            'mode': rng.choice(['uniform', 'sticky', 'pct'])}
+            'mode': rng.choice(['uniform', 'sticky', 'pct', 'stall'])}
 
 
 class UserError(Exception):
